@@ -241,6 +241,9 @@ def _body_table(lens, mode, lens2=None):
                 got = stats.pc_joint(df, list(names), gap_token="|")
             elif mode == "tuple":
                 got = stats.pc((list(df._cols[names[0]]), list(df._cols[names[1]])))
+            elif mode == "tuple-series":      # legacy tuple of two Series whose index labels differ: chains pair up by POSITION
+                n_ = len(rows)
+                got = stats.pc((pd_model.Series(list(df._cols[names[0]])), pd_model.Series(list(df._cols[names[1]]), index=list(range(10 + n_, 10, -1)))))
             else:   # pc_joint on a column subset vs pc of that sub-table
                 sub = names[:-1]
                 got = stats.pc_joint(df, list(sub))
@@ -281,6 +284,12 @@ def _replay_table(lens, mode, lens2=None):
                 got, use = stats.pc_joint(df, list(names), gap_token="|"), rows
             elif mode == "tuple":
                 got, use = stats.pc((list(df[names[0]]), list(df[names[1]]))), rows
+            elif mode == "tuple-series":
+                n_ = len(rows)
+                got, use = stats.pc((pd.Series(list(df[names[0]]), dtype=object), pd.Series(list(df[names[1]]), index=list(range(10 + n_, 10, -1)), dtype=object))), rows
+                got_p = stats.pc((pd.Series(list(df[names[0]]), dtype=object), pd.Series(list(df[names[1]]), index=list(range(n_ - 1, -1, -1)), dtype=object)))
+                if abs(float(got_p) - float(got)) > 1e-9:
+                    return False, f"pc of an (alpha, beta) tuple of Series depends on the index labels of the beta Series: {got!r} (labels {10 + n_}..11) vs {got_p!r} (labels {n_ - 1}..0) for rows {rows!r}"
             else:
                 got, use = stats.pc_joint(df, list(names[:-1])), [r[:-1] for r in rows]
             want = Fraction(sum(1 for i in range(len(use)) for j in range(len(use)) if i != j and use[i] == use[j]), den)
@@ -357,7 +366,7 @@ def conditions(tier):
     ]
     for name, lens in T:
         ncol = len(lens[0])
-        modes = ["pc", "pc_joint"] + (["tuple"] if ncol == 2 else []) + (["subset"] if ncol >= 2 else [])
+        modes = ["pc", "pc_joint"] + (["tuple", "tuple-series"] if ncol == 2 else []) + (["subset"] if ncol >= 2 else [])
         for mode in modes:
             if tier == "quick" and name in ("3x2", "2x3") and mode in ("tuple", "subset"):
                 continue
